@@ -126,6 +126,26 @@ pub fn gen_arg(ty: &str, fname: &str, i: usize, n: usize, rng: &mut Rng) -> Vec<
             let v: Vec<u8> = (0..len).map(|_| rng.below(256) as u8).collect();
             v.toks()
         }
+        "Hex" => {
+            const POOL: [char; 30] = ['0', '1', '7', '9', 'a', 'c', 'f', 'A', 'C', 'F', 'g', 'G', 'z', '#', '+', '-', ' ', '.', 'x', '\u{e9}', '\u{20ac}', '\u{1F600}', '\u{0}', '\u{7f}', '\u{df}', 'e', 'E', 'b', '5', '3'];
+            let c = rgb_at(i, rng);
+            let s: String = match i % 8 {
+                0 => format!("#{:02x}{:02x}{:02x}", c.r, c.g, c.b),
+                1 => format!("{:02X}{:02X}{:02X}", c.r, c.g, c.b),
+                2 => format!("#{:x}{:x}{:x}", c.r / 17, c.g / 17, c.b / 17),
+                3 => format!("{:X}{:x}{:X}", c.r / 17, c.g / 17, c.b / 17),
+                4 | 5 => { let len = rng.below(9) as usize; (0..len).map(|_| POOL[rng.below(30) as usize]).collect() }
+                _ => {
+                    let mut v: Vec<char> = format!("#{:02x}{:02x}{:02x}", c.r, c.g, c.b).chars().collect();
+                    for _ in 0..1 + rng.below(2) {
+                        let p = rng.below(v.len() as u64 + 1) as usize;
+                        match rng.below(3) { 0 => { if p < v.len() { v[p] = POOL[rng.below(30) as usize]; } } 1 => { if p < v.len() { v.remove(p); } } _ => v.insert(p.min(v.len()), POOL[rng.below(30) as usize]) }
+                    }
+                    v.into_iter().collect()
+                }
+            };
+            lymui::hex::Hex(s).toks()
+        }
         "Xyz" => xyz_of(rng, i).toks(),
         "Cymk" => {
             if rng.below(3) == 0 {
